@@ -3,6 +3,7 @@ pub mod enc;
 pub mod gens;
 pub mod model;
 pub mod refdec;
+pub mod rrtext;
 #[macro_use]
 pub mod runner;
 pub mod src;
